@@ -96,7 +96,7 @@ static const char *interp_tag(const std::vector<Z> &a, mpz_srcptr q)
 static void interp_part(const Opts &o, SplitMix &g)
 {
 	const long smallq[6] = { 2, 3, 5, 7, 11, 13 };
-	const uint64_t cap = (o.tier == "thorough") ? 20000 : 1500;
+	const uint64_t cap = (o.tier == "thorough") ? 20000 : 700;
 	Z q;
 	for (int qi = 0; qi < 6; qi++) for (size_t m = 1; m <= 4; m++) {
 		long qq = smallq[qi]; mpz_set_si(q, qq);
@@ -214,7 +214,7 @@ static bool ref_rel(const std::string &fn, unsigned long psize, unsigned long qs
 	// safe primes
 	if (!pp || !qp || mpz_sgn(q) <= 0) return false;
 	mpz_mul_2exp(t, q, 1); mpz_add_ui(t, t, 1); if (mpz_cmp(t, p)) return false;
-	if (mpz_sizeinbase(q, 2) < qsize) return false;
+	if (mpz_sizeinbase(q, 2) < qsize || mpz_sizeinbase(p, 2) < psize) return false;
 	if (fn == "sprime2g" && mpz_fdiv_ui(p, 8) != 7) return false;
 	return true;
 }
@@ -316,7 +316,7 @@ static void roundtrip_part(const Opts &o, SplitMix &g)
 		mpz_add_ui(v, v, 2); line_roundtrip(v, "nonneg");
 	}
 	// around the capacity of the text buffer (TMCG_MAX_VALUE_CHARS hexadecimal characters)
-	for (unsigned k = 4 * TMCG_MAX_VALUE_CHARS - 40; k <= 4 * TMCG_MAX_VALUE_CHARS + 8; k++) {
+	for (unsigned k = 4 * TMCG_MAX_VALUE_CHARS - ((o.tier == "thorough") ? 40 : 18); k <= 4 * TMCG_MAX_VALUE_CHARS + 2; k++) {
 		mpz_set_ui(v, 1); mpz_mul_2exp(v, v, k); line_roundtrip(v, "limit");
 		mpz_sub_ui(v, v, 1); line_roundtrip(v, "limit");
 		mpz_neg(v, v); line_roundtrip(v, "limit-neg");
